@@ -25,6 +25,11 @@ CLAIMED = {
    text="Decides a sufficient structural condition and reports its exceptions: the only in-memory state that block n may leave for block n+1 is the sync height (persisted and restored). The footprint today is that height plus the three rolling-average cache fields, which are recorded as a known genuine defect (count-trimmed incrementally, window-rebuilt after restart); any new carried location or new writer of one is a violation. Does not decide equality of ledgers across restart placements.",
    note="Trusted: go/ssa, module call graph, field-based location abstraction. A future cache that is semantically transparent would be reported and would need an audited entry after review (stated in DESIGN.md §4 C09).",
    ref="DESIGN.md §2.7 E5, §4 C09"),
+ "C15": dict(
+   technique="abstract decision tables: sparse conditional constant propagation over go/ssa specialised per height class (all intervals/points of the activation constants x residue mod 144), must-pass-through and execution-order queries on the specialised CFG, constant evaluation of the reward arithmetic, who-may-call",
+   text="Decides for every height class which scheduled-issuance function is executable and with which height: the 2.0.4 mint and its burn only at their activation heights, burn-address zeroing only at its two heights (right address, history rows only before 2.0.2), developer payouts iff height >= activation and height % 144 == 0; that at those heights the call lies on every non-failing path (cannot be skipped by unrelated conditions); that a step which debits amounts read from committed balances precedes every other balance write of the block; that each developer's credit equals percentage x total in both eras with totals 2,000 and 2,000x144 PEG, percentages summing to 100, history row = credit, ticker PEG; that these functions have no other caller; and mint-table sanity. The heights are enumerated exhaustively as equivalence classes, not sampled. Does not decide the mint amounts themselves (the table is the specification) nor behaviour under faults (C10).",
+   note="Trusted: mainnet activation constants as initialised in source (no store to them is reachable from sync or API: C09/config-stable), go/ssa, go/constant with IEEE-double rounding for float64 expressions. The class argument assumes the height is only compared with activation constants (+-1) and tested mod 144.",
+   ref="DESIGN.md §2.6, §4 C15, Appendix B"),
  "C18": dict(
    technique="who-may-write over call graph x SQL catalogue from the JSON-RPC method-map roots + per-root-context shared-location (static race footprint) analysis with lock sets + dominance of the height publication by Commit's nil edge",
    text="Decides that no API handler can reach an SQL write, BeginTx or *sql.Tx method (14 roots, all statements resolved), that the block transaction never escapes the sync goroutine, that no memory location reachable from the shared singletons or package variables is written by one of the two concurrently running roots and accessed by the other without a common mutex or atomic access, and that the sync height handlers read is advanced only after Commit succeeded. Covers every interleaving because it is a footprint argument, not a schedule sample. Does not decide linearisability of multi-statement reads or SQLite lock contention.",
